@@ -23,7 +23,7 @@
 (*                 the name threading made up for it ("Dummy-N") instead of  *)
 (*                 the runner's placeholder name ("Dummy-<ident>")           *)
 (*   Rename(th,n)  a running thread known to threading is given another name *)
-(*   TestStop(k)   report := running threads whose ident is not that of a *)
+(*   TestStop(k)   report := running threads whose ident is not that of a    *)
 (*                 snapshot entry still taken for alive (fix 12a8a7f; before *)
 (*                 it: of any snapshot entry - deviation                     *)
 (*                 "SnapshotKeepsEnded") and whose name *at this moment*     *)
@@ -40,11 +40,13 @@
 (* that is handed the same ident is seen under that old made-up name at once *)
 (* - another name of the same ignore class, so no report changes.            *)
 (*                                                                           *)
-(* P-spec: report[k] = threads started during test k, still running at its   *)
-(* end, not ignored.  Threads that exist before the first test (startedIn =  *)
-(* 0) are never reported.  The statement does not say *when* a thread's name *)
-(* is looked at.  The only name a runner can see is the one the thread       *)
-(* carries when the test ends, and that name decides here - except in this   *)
+(* P-spec: report (of test k, when it has stopped) = threads started during  *)
+(* test k, still running at its end, not ignored.  Threads that exist before *)
+(* the first test (startedIn = 0) are never reported.  The statement does    *)
+(* not say *when* a thread's name is looked at.  The only name a runner can  *)
+(* see is the one the thread carries when the test ends (the name at report  *)
+(* time is what the ignore patterns see), and that name decides - except in  *)
+(* this                                                                      *)
 (* explicit DON'T-CARE ZONE: a thread that test k started under a name of    *)
 (* one ignore class and that carries a name of the other class when k ends   *)
 (* may or may not be reported for k (reading "the name it was started with"  *)
@@ -52,7 +54,13 @@
 (* *after* the one that started it never makes it reportable: a leak belongs *)
 (* to the test that started it.                                              *)
 (*                                                                           *)
-(* The history variable hist is the schedule replayed on the real runner.    *)
+(* The history variable hist (KeepHist) is the schedule replayed on the real  *)
+(* runner: <<"cfg", dummyIgn>>, then <<"test", k>>, <<"start", th, ignored,  *)
+(* api, name>> (before the first "test": a thread that exists before the     *)
+(* first test), <<"end", th>>, <<"adopt", th>>, <<"rename", th, ignored,     *)
+(* name>>.  Threads_sched_base / Threads_sched / Threads_sched_sim print it  *)
+(* at terminal states (there Names are name classes, RenameSame); the        *)
+(* deviation configs keep it so that their counterexamples can be replayed.  *)
 (* Deviations: "NoAliveCheck" (finished threads still known to threading are *)
 (* reported), "SnapshotAfterBody" (snapshot taken too late), "KeepSnapshot"  *)
 (* (the snapshot of the first test is reused), "ProxyEqName" (two proxies    *)
